@@ -605,7 +605,17 @@ func (f *Flow) withDeferred(cur []Event, exit ExitKind) []Event {
 		if fl, ok := e.Call.Fun.(*ast.FuncLit); ok {
 			out = append(out, f.deferredLitEvents(fl)...)
 		} else {
-			out = append(out, Event{Kind: EvCall, Pos: e.Call.Pos(), Node: e.Node, Call: e.Call, Callee: e.Callee, Deferred: true, Block: e.Block})
+			ce := Event{Kind: EvCall, Pos: e.Call.Pos(), Node: e.Node, Call: e.Call, Callee: e.Callee, Deferred: true, Block: e.Block}
+			if in := f.inlineOfDeferred(ce); in != nil {
+				ce.Inlined = true
+				out = append(out, ce)
+				for _, ie := range flattenDeferred(in.flow) {
+					ie.Depth++
+					out = append(out, ie)
+				}
+				continue
+			}
+			out = append(out, ce)
 		}
 	}
 	return out
@@ -615,6 +625,22 @@ func (f *Flow) withDeferred(cur []Event, exit ExitKind) []Event {
 // are certain, the others are marked Maybe; order is source order.
 func (f *Flow) deferredLitEvents(fl *ast.FuncLit) []Event {
 	sub := f.P.flowOf(fl, fl.Body, f.Pkg, f.Name+"$defer")
+	if sub.self == nil {
+		sub.self = f.self
+	}
+	return flattenDeferred(sub)
+}
+
+// inlineOfDeferred: the callee copy for a deferred call of a declared function (the arguments
+// are evaluated at the defer statement; simple arguments are substituted as for a direct call).
+func (f *Flow) inlineOfDeferred(e Event) *inlined {
+	if f.noInline {
+		return nil
+	}
+	return f.inlineOf(e)
+}
+
+func flattenDeferred(sub *Flow) []Event {
 	paths, _ := sub.Paths()
 	type key struct {
 		pos  token.Pos
@@ -630,7 +656,7 @@ func (f *Flow) deferredLitEvents(fl *ast.FuncLit) []Event {
 		}
 		seen := map[key]bool{}
 		for _, e := range p.Ev {
-			if e.Kind == EvBranch || e.Kind == EvReturn || e.Kind == EvRange || e.Kind == EvSelect || e.Kind == EvTypeCase {
+			if e.Kind == EvBranch || e.Kind == EvReturn || e.Kind == EvRange || e.Kind == EvSelect || e.Kind == EvTypeCase || e.Kind == EvInlReturn || e.Kind == EvInlEnd {
 				continue
 			}
 			k := key{e.Pos, e.Kind}
